@@ -2,7 +2,7 @@
 # Run the repository's baseline suite (hooks guard OFF: no harness feature is involved) and compare
 # with /root/.vp/BASELINE.json stable_pass. Exit 0 iff every stable test passes.
 set -u
-cd /repo || exit 2
+cd "${BASELINE_REPO:-/repo}" || exit 2
 OUT="${1:-/tmp/baseline.$$.log}"
 CARGO_NET_OFFLINE=true cargo nextest run --workspace --no-fail-fast --test-threads 8 --offline >"$OUT" 2>&1
 python3 - "$OUT" <<'PY'
